@@ -223,6 +223,30 @@ def exp1(ctx, c):
         c.check(okop and (l, r) == ("left", "right"), "ExpressionValue.resolve:%s" % op, "left %s right" % op, "computes %s %s %s" % (l, t.__name__, r),
                 "for operator %s ExpressionValue.resolve computes %s %s %s" % (op, l, t.__name__, r), repo.loc(fn, node))
     c.floor("operator arms", len(arms), 4)
+    # truncating division: int(a / b) or a // b
+    if "/" in arms:
+        node = arms["/"][3]
+        div = [x for x in ast.walk(node.body[0]) if isinstance(x, ast.BinOp) and isinstance(x.op, (ast.Div, ast.FloorDiv))][0]
+        if isinstance(div.op, ast.FloorDiv):
+            c.ok("ExpressionValue.resolve:/:truncation", "floor division of non-negative operands", repo.loc(fn, node))
+        else:
+            wrapped = any(isinstance(x, ast.Call) and U(x.func) == "int" and x.args and x.args[0] is div for x in ast.walk(node.body[0]))
+            c.check(wrapped, "ExpressionValue.resolve:/:truncation", "int(left / right)", "quotient used as %s" % U(node.body[0].value)[:60],
+                    "the quotient is not truncated with int(): %s rounds or keeps a fraction (7/2 must be 3)" % U(node.body[0].value)[:80], repo.loc(fn, node))
+    # reductions modulo N: only powers of two that are field sizes
+    vmod = repo.cls("ExpressionValue").module
+    for f in [x for x in repo.all_funcs() if x.module.rel in (vmod.rel, "cocoasm/statement.py", "cocoasm/operands.py", "cocoasm/program.py")]:
+        for x in ast.walk(f.node):
+            if isinstance(x, ast.BinOp) and isinstance(x.op, ast.Mod) and not isinstance(x.left, ast.Constant):
+                k = try_fold(x.right, ctx.env)
+                if isinstance(k, int) and k not in (2, 0x100, 0x10000):
+                    c.finding("%s:modulus" % f.q, "reduces modulo %#x" % k,
+                              "%s reduces a value modulo %#x; 8- and 16-bit quantities wrap modulo 0x100 and 0x10000 (modulo %#x maps %d to 0 and shifts everything above)" % (f.q, k, k, k),
+                              repo.loc(f, x))
+            if isinstance(x, ast.BinOp) and isinstance(x.op, ast.BitAnd):
+                k = try_fold(x.right, ctx.env)
+                if isinstance(k, int) and k > 0x1F and (k & (k + 1)) != 0 and k not in (0xC0, 0x60, 0x80):
+                    c.undecided("%s:mask" % f.q, "mask %#x is not of the form 2^n - 1" % k, "", repo.loc(f, x))
     # both operands are looked up when both are symbols
     try:
         outs = Interp(fn.node).run()
